@@ -559,9 +559,10 @@ class Fortran90OperatorsRule(GenericRule):  # Coding standards 4.15
         # automatically
         mapper = {}
         for report in rule_report.problem_reports:
-            new_expr = report.location
-            new_expr.update_metadata({'source': None})
-            mapper[report.location] = new_expr
+            node = report.location
+            if getattr(node, 'source', None) is not None:
+                node.source.invalidate()
+            mapper[node] = node
         return mapper
 
 
